@@ -91,6 +91,7 @@ type Obligation struct {
 	Values []*smt.Term
 	ValueNames []string
 	Props  []string
+	Splits []*smt.Term // branch atoms merged into the state (case-split candidates for a hard query)
 }
 
 type modset struct {
@@ -165,6 +166,7 @@ type frame struct {
 	defers    []*ssa.Defer
 	bindings  []*smt.Term
 	cellOK    map[*ssa.Alloc]bool
+	curCallArg0 ssa.Value
 }
 
 type retRec struct {
@@ -635,6 +637,11 @@ func (e *Exec) check(st *State, kind string, goal *smt.Term, pos token.Pos, labe
 	p, txt := e.W.SrcLine(pos)
 	o := &Obligation{Name: name, Kind: kind, Func: e.curFunc, Pos: p, Text: txt, Hyp: e.hyp(st), Goal: goal,
 		Values: e.inputs, ValueNames: e.inputNames, Props: e.curProps}
+	for _, c := range st.Splits {
+		if c.Op != "or" && c.Op != "and" && !c.HasBound {
+			o.Splits = append(o.Splits, c)
+		}
+	}
 	e.Obls = append(e.Obls, o)
 	// a checked fact may be used afterwards; quantified goals (postconditions, invariants) are not
 	// carried along: nothing later needs them and they multiply instantiation work
